@@ -812,6 +812,27 @@ func (e *SpecEnv) evalCall(x SCall) SV {
 			e.fail("seen() outside a range-over-map loop")
 		}
 		return SV{Term: fmt.Sprintf("(select %s %s)", sv.Term, arg(0).Term), Typ: boolT}
+	case "seenCount":
+		// seenCount(): number of keys the enclosing range-over-map loop has produced so far
+		sv, ok := e.Vars["#seenN"]
+		if !ok {
+			e.fail("seenCount() outside a range-over-map loop")
+		}
+		return SV{Term: sv.Term, Typ: intT}
+	case "seenKey":
+		// seenKey(j): the j-th key produced by the enclosing range-over-map loop (ghost; meaningful for 0 <= j < seenCount())
+		sv, ok := e.Vars["#seenKey"]
+		if !ok {
+			e.fail("seenKey() outside a range-over-map loop")
+		}
+		return SV{Term: fmt.Sprintf("(select %s %s)", sv.Term, arg(0).Term), Typ: sv.Typ}
+	case "seenPos":
+		// seenPos(k): the position at which key k was produced (ghost; meaningful for seen(k))
+		sv, ok := e.Vars["#seenPos"]
+		if !ok {
+			e.fail("seenPos() outside a range-over-map loop")
+		}
+		return SV{Term: fmt.Sprintf("(select %s %s)", sv.Term, arg(0).Term), Typ: intT}
 	case "typeIs":
 		v := arg(0)
 		id, ok := x.Args[1].(SStrLit)
